@@ -286,6 +286,10 @@ def check_gcm_frames(checker, frames, where):
                 return
 
 
+async def _via(aw):
+    return await aw
+
+
 def _gcm_enter(env, i):
     ev = env.expect("enter", i)
     env.inner_probe(ev, "enter", None)
@@ -423,7 +427,7 @@ class Checker:
         self.mismatches.append(d)
 
     # ---- suspended frames (C01 / C08 / C20)
-    def check_suspended(self, env, ev, obj, origin_kind):
+    def check_suspended(self, env, ev, obj, origin_kind, owner=None):
         self.observations += 1
         if ev["ex"]:
             self.exit_observations += 1
@@ -435,10 +439,14 @@ class Checker:
             except BaseException as ex:
                 self.bad("extract raised %r" % (ex,))
                 return None
-        if not st.frames or st.frames[0].funcname != "prog":
+        lead = 1 if origin_kind == "agenv" else 0       # the driving coroutine's frame comes first
+        if len(st.frames) <= lead or st.frames[lead].funcname != "prog" or (lead and st.frames[0].funcname != "_via"):
             self.bad("first frame is not the program's frame: %s" % [f.funcname for f in st.frames])
             return st
-        fr = st.frames[0]
+        fr = st.frames[lead]
+        if lead:
+            st = stackscope.Stack(root=st.root, frames=st.frames[lead:], leaf=st.leaf, error=st.error)
+            obj = owner
         got = observed_contexts(env, fr.contexts)
         wtexts = [str(w.message)[:160] for w in wl if issubclass(w.category, RuntimeWarning)]
         info = dict(exp=exp, got=got, w=ev["w"], ex=ev["ex"], warnings=wtexts,
@@ -631,7 +639,7 @@ class Checker:
 
 # ------------------------------------------------------------------ execution
 def compile_prog(prog, carrier, running):
-    r = P.render(prog, carrier, running=running, py=PY)
+    r = P.render(prog, "agen" if carrier == "agenv" else carrier, running=running, py=PY)
     ns = {}
     try:
         code = compile(r.source, "<verif-prog>", "exec")
@@ -661,11 +669,15 @@ def drive_suspended(fn, r, beh, carrier, checker, observe=True, mask=None, reps=
                 c = stackscope.extract(job)
             if b != c or [f.pyframe for f in a.frames] != [f.pyframe for f in b.frames]:
                 checker.bad("extractions of the unstarted target differ")
-        if carrier in ("agen", "ageny"):
+        # agenv: the async generator is driven by a COROUTINE awaiting its asend() awaitable, and that coroutine is what
+        # gets extracted (the generator's frame is then reached through another generator-like object)
+        if carrier == "agenv":
+            aw = _via(obj.asend(None))
+        elif carrier in ("agen", "ageny"):
             aw = obj.asend(None)
         while True:
             try:
-                if carrier in ("agen", "ageny"):
+                if carrier in ("agen", "ageny", "agenv"):
                     v = aw.send(None)
                 else:
                     v = obj.send(None)
@@ -699,7 +711,7 @@ def drive_suspended(fn, r, beh, carrier, checker, observe=True, mask=None, reps=
             if observe and (mask is None or (sends < len(mask) and mask[sends])):
                 stacks = []
                 for _ in range(reps):
-                    stacks.append(checker.check_suspended(env, ev, obj, carrier))
+                    stacks.append(checker.check_suspended(env, ev, aw if carrier == "agenv" else obj, carrier, owner=obj))
                 if reps > 1 and stacks[0] is not None and any(s != stacks[0] for s in stacks[1:]):
                     checker.bad("two extractions of an unchanged target differ")
                 if checker.mode == "purity":
@@ -719,7 +731,7 @@ def drive_suspended(fn, r, beh, carrier, checker, observe=True, mask=None, reps=
             raise GroundTruthMismatch("outcome: spec %s real %s" % (spec_out, outcome))
     finally:
         try:
-            if carrier in ("agen", "ageny"):
+            if carrier in ("agen", "ageny", "agenv"):
                 pass
             else:
                 obj.close()
@@ -754,7 +766,7 @@ def drive_running(fn, r, beh, carrier, checker):
 def carriers_for(prog, mode):
     if mode == "running":
         return ["coro", "agen"] if prog["async"] else ["func", "gen", "coro", "agen"]
-    return ["coro", "agen", "ageny"] if prog["async"] else ["gen", "coro", "agen", "ageny"]
+    return ["coro", "agen", "ageny", "agenv"] if prog["async"] else ["gen", "coro", "agen", "ageny", "agenv"]
 
 
 def main():
@@ -777,8 +789,10 @@ def main():
             continue
         carriers = carriers_for(prog, mode)
         if "ageny" in carriers:
-            # the two async-generator carriers (suspended in an await / at its own yield) alternate between behaviours
-            carriers.remove("agen" if ((bi // shard[1]) + beh["pid"]) % 2 else "ageny")
+            # the three async-generator carriers (suspended in an await / at its own yield / driven through a coroutine)
+            # take turns between behaviours
+            keep = ("agen", "ageny", "agenv")[((bi // shard[1]) + beh["pid"]) % 3]
+            carriers = [c for c in carriers if c not in ("agen", "ageny", "agenv") or c == keep]
         for carrier in carriers:
             key = (beh["pid"], carrier, mode == "running")
             if key not in cache:
